@@ -181,6 +181,15 @@ def body(data) -> Outcome:
     if scope:
         out.labels.append("scoped-root-inputs")
     inputs = {scope + k: v for k, v in mp.make_inputs(prog).items()}
+    continued_axis = None
+    stor = prog["storage"]
+    if not scope and ({stor} if isinstance(stor, str) else set(stor.values())) <= {"file_array", "shared_memory_dict"}:
+        from checks.c06_partial import independent_axes, never_named_axis
+
+        ind = independent_axes(prog)
+        if ind and not never_named_axis(prog) and zlib.crc32(json.dumps(prog, sort_keys=True).encode()) % 2:
+            continued_axis = ind[0]
+            out.labels.append("stored-by-a-partial-run-continued-in-a-process-pool")
 
     def run(inputs=inputs):
         from pipefunc.map._run_info import RunInfo
@@ -188,8 +197,18 @@ def body(data) -> Outcome:
         pipe = mp.build_pipeline(prog)
         if scope:
             pipe.update_scope("grid", inputs="*")
-        pipe.map(inputs, run_folder=folder, internal_shapes=mp.internal_shapes_arg(prog), storage=mp.storage_arg(prog),
-                 parallel=False, persist_memory=True)  # fmt: skip
+        kw = dict(run_folder=folder, internal_shapes=mp.internal_shapes_arg(prog), storage=mp.storage_arg(prog), persist_memory=True)
+        if continued_axis is not None:
+            # the stored run is produced in two steps: one slice of an independent axis first, the rest by a
+            # continuation (cleanup=False) in a process pool -- what is reloaded afterwards must not depend on that
+            import multiprocessing
+            from concurrent.futures import ProcessPoolExecutor
+
+            pipe.map(inputs, fixed_indices={continued_axis: 0}, parallel=False, **kw)
+            with ProcessPoolExecutor(max_workers=2, mp_context=multiprocessing.get_context("fork")) as ex:
+                pipe.map(inputs, cleanup=False, parallel=True, executor=ex, **kw)
+        else:
+            pipe.map(inputs, parallel=False, **kw)
         return summary(RunInfo.load(folder))
 
     try:
